@@ -227,7 +227,7 @@ QPush(w, q, d) ==
         /\ cur' = [cur EXCEPT ![w] = cb[w].n]
         /\ cb' = [cb EXCEPT ![w] = NoCb]
         /\ th' = th
-     \/ /\ cb[w].k = "none" /\ Runs(w, cur[w]) /\ th[cur[w]].pc.k = "cr3p" /\ th[cur[w]].pc.z = d   \* (b)
+     \/ /\ cb[w].k = "none" /\ Runs(w, cur[w]) /\ th[cur[w]].pc.k = "cr3p" /\ th[cur[w]].pc.z = d /\ th[d].saved   \* (b) (its context has been made)
         /\ runq' = [runq EXCEPT ![w] = Append(@, d)]
         /\ th' = SetPc(cur[w], [th[cur[w]].pc EXCEPT !.k = "cr4"])
         /\ UNCHANGED <<cur, cb>>
@@ -346,8 +346,18 @@ StackAlloc(w, rank, s, lo, hi, kind, idx) ==
   /\ UNCHANGED <<cur, got, cb, runq, lk, freeD, nD, nL, anw, tg, sv>>
 
 \* child-first: about to save the parent's context and run the child on its new stack
+\* the initial context of the new thread has been written (kind 0: empty context entered through a callback,
+\* kind 1: context that jumps to the thread's entry function); only from now on may the thread be entered
+\* ok = what the context holds at that moment: its stack pointer lies just below the top of the thread's stack and
+\* (kind 1) points to the address of the entry function
+MkCtx(w, c, kind, ok) ==
+  /\ \E p \in D : At(w, p, "cr2") /\ th[p].pc.z = c /\ kind = Flag(HasFlag(th[p].pc.y, F_PF))
+        /\ th' = [th EXCEPT ![p].pc = [@ EXCEPT !.k = "cr2m"], ![c].saved = (kind = 1)]
+  /\ bad' = IF ok # 1 THEN Fail("C03: the initial context of a new thread does not point into its stack / at its entry function") ELSE bad
+  /\ UNCHANGED <<cur, got, cb, runq, lk, stk, freeD, freeS, flS, nD, nS, nL, anw, tg, sv>>
+
 CreateCF(w, p, c, s, det, cds) ==
-  /\ At(w, p, "cr2") /\ th[p].pc.z = c /\ th[c].stk = s /\ ~HasFlag(th[p].pc.y, F_PF)
+  /\ At(w, p, "cr2m") /\ th[p].pc.z = c /\ th[c].stk = s /\ ~HasFlag(th[p].pc.y, F_PF)
   /\ det = Flag(HasFlag(th[p].pc.y, F_DETACH)) /\ cds = 0
   /\ th' = [th EXCEPT ![p].pc = [@ EXCEPT !.k = "cr3"],
                       ![c] = [@ EXCEPT !.st = "ready", !.tag = th[p].pc.x, !.pc = P("start", 0, 0, 0),
@@ -357,11 +367,10 @@ CreateCF(w, p, c, s, det, cds) ==
   /\ UNCHANGED <<cur, got, cb, runq, lk, freeD, freeS, flS, nD, nS, nL, anw, bad, sv>>
 
 CreatePF(w, p, c, s, det, cds) ==
-  /\ At(w, p, "cr2") /\ th[p].pc.z = c /\ th[c].stk = s /\ HasFlag(th[p].pc.y, F_PF)
+  /\ At(w, p, "cr2m") /\ th[p].pc.z = c /\ th[c].stk = s /\ HasFlag(th[p].pc.y, F_PF)
   /\ det = Flag(HasFlag(th[p].pc.y, F_DETACH)) /\ cds = 0
   /\ th' = [th EXCEPT ![p].pc = [@ EXCEPT !.k = "cr3p"],
                       ![c] = [@ EXCEPT !.st = "ready", !.tag = th[p].pc.x, !.pc = P("entry", 0, 0, 0),
-                                      !.saved = TRUE,        \* a freshly made context is resumable
                                       !.det = HasFlag(th[p].pc.y, F_DETACH)]]
   /\ stk' = [stk EXCEPT ![s].own = c]
   /\ tg' = [tg EXCEPT ![th[p].pc.x].d = c, ![th[p].pc.x].hs = IF HasFlag(th[p].pc.y, F_DETACH) THEN "detached" ELSE "live"]
